@@ -310,6 +310,107 @@ pub async fn run_storage(b: &Value, tr: &mut Tracer) {
     }
 }
 
+/// Concurrent tasks on clones of one manager, gate-scheduled at the ISSUE and the COMPLETION of every
+/// storage operation (C16: a cache fill racing with a write). Recorded: the writes in the order they
+/// reached the database, then the sweep at quiescence.
+pub async fn run_storage_conc(b: &Value, tr: &mut Tracer) {
+    use crate::hookdb::PID;
+    let db = HookDb::new();
+    let cache = b["cache"].as_str().unwrap_or("default");
+    let m = match cache {
+        "none" => StorageManager::new_no_cache(db.clone()),
+        _ => StorageManager::new(db.clone(), None, None, None),
+    };
+    let strs = |k: &str| -> Vec<String> { b[k].as_array().unwrap().iter().map(|x| x.as_str().unwrap().to_string()).collect() };
+    let nums = |k: &str| -> Vec<u64> { b[k].as_array().unwrap().iter().map(|x| x.as_u64().unwrap()).collect() };
+    let ctx = StorCtx { db: db.clone(), m: m.clone(), users: strs("users"), epochs: nums("epochs"), versions: nums("versions"), nodes: strs("nodes"), sleepy: false };
+    tr.emit(json!({"ev": "reset", "id": b["id"], "cache": cache}));
+    for st in b["setup"].as_array().unwrap() {
+        ctx.apply(st, tr).await;
+    }
+    db.set_log(true);
+    {
+        let mut c = db.ctl.lock().unwrap();
+        c.gate_enabled = true;
+        c.gate_post = b["post"].as_bool().unwrap_or(true);
+    }
+    let tasks = b["tasks"].as_array().unwrap().clone();
+    let mut handles = std::collections::HashMap::new();
+    for t in tasks.iter() {
+        let pid = t["pid"].as_u64().unwrap() as u32;
+        let ops = t["ops"].as_array().unwrap().clone();
+        let tctx = StorCtx { db: db.clone(), m: m.clone(), users: ctx.users.clone(), epochs: ctx.epochs.clone(), versions: ctx.versions.clone(), nodes: ctx.nodes.clone(), sleepy: false };
+        handles.insert(pid, tokio::spawn(PID.scope(pid, async move {
+            let mut scratch = Tracer::new();
+            for op in ops.iter() {
+                tctx.apply(op, &mut scratch).await;
+            }
+            scratch
+        })));
+    }
+    let schedule: Vec<u32> = b["schedule"].as_array().unwrap().iter().map(|x| x.as_u64().unwrap() as u32).collect();
+    for pid in schedule.iter() {
+        let h = match handles.get(pid) {
+            Some(h) => h,
+            None => continue,
+        };
+        let mut waited = 0;
+        loop {
+            if h.is_finished() {
+                break;
+            }
+            if db.ctl.lock().unwrap().waiting.contains_key(pid) {
+                db.ctl.lock().unwrap().grants.push_back(*pid);
+                let mut k = 0;
+                loop {
+                    tokio::task::yield_now().await;
+                    let (consumed, at_next) = {
+                        let c = db.ctl.lock().unwrap();
+                        (!c.grants.contains(pid), c.waiting.contains_key(pid))
+                    };
+                    if h.is_finished() || (consumed && at_next) || (consumed && k > 200) || k > 5000 {
+                        break;
+                    }
+                    k += 1;
+                }
+                break;
+            }
+            tokio::task::yield_now().await;
+            waited += 1;
+            if waited > 300 {
+                break;
+            }
+        }
+    }
+    db.ctl.lock().unwrap().gate_enabled = false;
+    let mut task_events: std::collections::HashMap<u32, Vec<Value>> = std::collections::HashMap::new();
+    for (pid, h) in handles.into_iter() {
+        if let Ok(sc) = h.await {
+            task_events.insert(pid, sc.buf.iter().map(|l| serde_json::from_str(l).unwrap()).collect());
+        }
+    }
+    // writes in the order they reached the database
+    let log = db.take_log();
+    db.set_log(false);
+    let mut cursor: std::collections::HashMap<u32, usize> = std::collections::HashMap::new();
+    for o in log.iter().filter(|o| o.kind == "set" || o.kind == "batch_set") {
+        let evs = match task_events.get(&o.pid) {
+            Some(e) => e,
+            None => continue,
+        };
+        let c = cursor.entry(o.pid).or_insert(0);
+        while *c < evs.len() && evs[*c]["ev"] != "set" {
+            *c += 1;
+        }
+        if *c < evs.len() {
+            tr.emit(evs[*c].clone());
+            *c += 1;
+        }
+    }
+    tr.emit(json!({"ev": "sleep"}));
+    ctx.sweep(tr).await;
+}
+
 pub fn main_storage(args: &[String]) {
     let input = arg_val(args, "--in").expect("--in");
     let out = arg_val(args, "--out").expect("--out");
@@ -317,7 +418,11 @@ pub fn main_storage(args: &[String]) {
     let behaviours = read_ndjson(&input);
     let (n, total) = crate::dirdrv::run_parallel(behaviours, &out, threads, |b| async move {
         let mut tr = Tracer::new();
-        run_storage(&b, &mut tr).await;
+        if b["tasks"].is_array() {
+            run_storage_conc(&b, &mut tr).await;
+        } else {
+            run_storage(&b, &mut tr).await;
+        }
         tr
     });
     println!("{}", json!({"behaviours": n, "events": total}));
